@@ -205,6 +205,8 @@ def classify(pid, results, baseline, known):
                     independent = False
                 # a guard clause (`requires false` on a call that must not appear) depends on nothing
                 independent = independent or (o["desc"] or "").rstrip().endswith("precondition false")
+                # a pure lock-state oracle (`requires !held(x.mu)` / `requires held(x.mu)`) rests on the lock tracking only
+                independent = independent or bool(re.search(r"precondition !?held\([^()]*\)$", (o["desc"] or "").rstrip()))
                 mm = re.search(r"loop(\d+)-invariant", o["clause"])
                 if matched:
                     rep["known"].append((o, matched))
